@@ -5,6 +5,7 @@ import (
 	"os"
 	"strings"
 	"sync"
+	"time"
 
 	"verifharness/client"
 	"verifharness/core"
@@ -22,7 +23,7 @@ func init() {
 }
 
 func runC01(r *core.Run) {
-	r.Rule("(a) seeded sequential adversarial histories (replay, duplicates with changed witness/dleq/amount, spent/pending proofs into swaps and melts, restarts) judged against the reference model plus stickiness probes; (b) controlled-scheduler enumeration of all interleavings, at DB/LN-call granularity, of two concurrent requests presenting the same proof (swap||swap, swap||melt, melt||melt, melt||checkstate) for each Lightning outcome; thorough adds sampled triples, free-running stress checked with porcupine and a -race pass. Non-trivial = a sequential operation that re-presented a used or locked secret, or a schedule in which both requests took a step before the other finished")
+	r.Rule("(a) seeded sequential adversarial histories (replay, duplicates with changed witness/dleq/amount, spent/pending proofs into swaps and melts, restarts) judged against the reference model plus stickiness probes; (b) controlled-scheduler enumeration, up to a preemption bound (quick 3, thorough 5), of the interleavings at DB/LN-call granularity of two concurrent requests presenting the same proof (swap||swap, swap||melt, melt||melt, melt||checkstate) for each Lightning outcome; thorough adds sampled triples, free-running stress checked with porcupine and a -race pass. Non-trivial = a sequential operation that re-presented a used or locked secret, or a schedule in which both requests took a step before the other finished")
 	r.Assume("between two DB/LN calls a request touches no shared mutable state (DESIGN 1.1), so DB/LN-call interleavings are the observable ones; SQLite, LN model trusted")
 	if os.Getenv("VERIF_RACE_CHILD") != "" {
 		c01Stress(r) // the -race child repeats the concurrent workload only
@@ -335,6 +336,8 @@ func c01Window(trace []string, names []string) string {
 	return last
 }
 
+const c01BoundText = "every schedule with at most 3 (quick) / 5 (thorough) preemptions, at most 5000 per scenario (thorough: one child process per scenario); scheduling points: before and after every DB/LN call"
+
 func planName(p lnmodel.PayPlan) string {
 	return fmt.Sprintf("%v/%v", p.Answer, p.Truth)
 }
@@ -355,38 +358,57 @@ func c01Judge(r *core.Run, scen string, names []string, plan lnmodel.PayPlan, o 
 }
 
 func c01Pairs(r *core.Run) {
-	t, err := c01MakeTemplate(r, "pairs")
-	if err != nil {
-		r.Violate("setup", "template: "+err.Error(), "pairs", nil)
-		return
-	}
 	type scen struct {
-		name string
-		ops  []c01Op
-		plan lnmodel.PayPlan
+		name  string
+		ops   []c01Op
+		plan  lnmodel.PayPlan
+		bound [2]int // preemption bound quick / thorough, when it differs from the default
 	}
 	succ := lnmodel.PayPlan{Answer: lnmodel.ASucceeded}
 	scens := []scen{
-		{"swap|swap", []c01Op{{"A", "swap", 0}, {"B", "swap", 0}}, succ},
-		{"swap|melt", []c01Op{{"A", "swap", 0}, {"B", "melt", 0}}, succ},
+		{name: "swap|swap", ops: []c01Op{{"A", "swap", 0}, {"B", "swap", 0}}, plan: succ},
+		{name: "swap|melt", ops: []c01Op{{"A", "swap", 0}, {"B", "melt", 0}}, plan: succ},
 	}
 	settled := lnmodel.PayPlan{Answer: lnmodel.APending, Truth: lnmodel.Succeeded}
 	scens = append(scens,
 		// a pending melt whose payment has meanwhile succeeded is settled by a poll / a state check while a swap of the same proof runs
-		scen{"swap|poll-settles-pending-melt", []c01Op{{"P", "premelt", 0}, {"A", "swap", 0}, {"B", "poll", 0}}, settled},
-		scen{"swap|checkstate-settles-pending-melt", []c01Op{{"P", "premelt", 0}, {"A", "swap", 0}, {"B", "check", 0}}, settled},
+		scen{name: "swap|poll-settles-pending-melt", ops: []c01Op{{"P", "premelt", 0}, {"A", "swap", 0}, {"B", "poll", 0}}, plan: settled},
+		scen{name: "swap|checkstate-settles-pending-melt", ops: []c01Op{{"P", "premelt", 0}, {"A", "swap", 0}, {"B", "check", 0}}, plan: settled},
+		// a state check arrives while the melt request is still between locking the proofs and paying, then a swap
+		scen{name: "swap|melt|checkstate", ops: []c01Op{{"A", "swap", 0}, {"B", "melt", 0}, {"C", "check", 0}}, plan: succ, bound: [2]int{1, 2}},
 	)
 	if !quick(r) {
 		scens = append(scens,
-			scen{"swap|poll-releases-pending-melt", []c01Op{{"P", "premelt", 0}, {"A", "swap", 0}, {"B", "poll", 0}}, lnmodel.PayPlan{Answer: lnmodel.APending, Truth: lnmodel.Failed}},
-			scen{"melt|poll-releases-pending-melt", []c01Op{{"P", "premelt", 0}, {"A", "melt", 1}, {"B", "poll", 0}}, lnmodel.PayPlan{Answer: lnmodel.APending, Truth: lnmodel.Failed}},
-			scen{"melt|melt", []c01Op{{"A", "melt", 0}, {"B", "melt", 1}}, succ},
-			scen{"swap|melt", []c01Op{{"A", "swap", 0}, {"B", "melt", 0}}, lnmodel.PayPlan{Answer: lnmodel.APending, Truth: lnmodel.InFlight}},
-			scen{"swap|melt", []c01Op{{"A", "swap", 0}, {"B", "melt", 0}}, lnmodel.PayPlan{Answer: lnmodel.AFailed}},
-			scen{"swap|melt", []c01Op{{"A", "swap", 0}, {"B", "melt", 0}}, lnmodel.PayPlan{Answer: lnmodel.AError, Truth: lnmodel.Succeeded}},
-			scen{"check|melt", []c01Op{{"A", "check", 0}, {"B", "melt", 0}}, succ},
-			scen{"melt|melt", []c01Op{{"A", "melt", 0}, {"B", "melt", 1}}, lnmodel.PayPlan{Answer: lnmodel.APending, Truth: lnmodel.InFlight}},
+			scen{name: "swap|poll-releases-pending-melt", ops: []c01Op{{"P", "premelt", 0}, {"A", "swap", 0}, {"B", "poll", 0}}, plan: lnmodel.PayPlan{Answer: lnmodel.APending, Truth: lnmodel.Failed}},
+			scen{name: "melt|poll-releases-pending-melt", ops: []c01Op{{"P", "premelt", 0}, {"A", "melt", 1}, {"B", "poll", 0}}, plan: lnmodel.PayPlan{Answer: lnmodel.APending, Truth: lnmodel.Failed}},
+			scen{name: "melt|melt", ops: []c01Op{{"A", "melt", 0}, {"B", "melt", 1}}, plan: succ},
+			scen{name: "swap|melt", ops: []c01Op{{"A", "swap", 0}, {"B", "melt", 0}}, plan: lnmodel.PayPlan{Answer: lnmodel.APending, Truth: lnmodel.InFlight}},
+			scen{name: "swap|melt", ops: []c01Op{{"A", "swap", 0}, {"B", "melt", 0}}, plan: lnmodel.PayPlan{Answer: lnmodel.AFailed}},
+			scen{name: "swap|melt", ops: []c01Op{{"A", "swap", 0}, {"B", "melt", 0}}, plan: lnmodel.PayPlan{Answer: lnmodel.AError, Truth: lnmodel.Succeeded}},
+			scen{name: "check|melt", ops: []c01Op{{"A", "check", 0}, {"B", "melt", 0}}, plan: succ},
+			scen{name: "melt|melt", ops: []c01Op{{"A", "melt", 0}, {"B", "melt", 1}}, plan: lnmodel.PayPlan{Answer: lnmodel.APending, Truth: lnmodel.InFlight}},
 		)
+	}
+	if !quick(r) && r.Splits() {
+		// one child process per scenario (see core.RunPart)
+		core.Parallel(len(scens), 3, func(i int) {
+			r.RunPart(fmt.Sprintf("pairs/%s/%s", scens[i].name, planName(scens[i].plan)), 30*time.Minute)
+		})
+		r.Extra("pair_enumerations_complete_within_bound", r.Counter("enumerations_truncated_at_cap") == 0)
+		r.Extra("schedule_bound", c01BoundText)
+		return
+	}
+	wanted := false
+	for _, sc := range scens {
+		wanted = wanted || r.Want(fmt.Sprintf("pairs/%s/%s", sc.name, planName(sc.plan)))
+	}
+	if !wanted {
+		return
+	}
+	t, err := c01MakeTemplate(r, "pairs")
+	if err != nil {
+		r.Violate("setup", "template: "+err.Error(), "pairs", nil)
+		return
 	}
 	allComplete := true
 	for si, sc := range scens {
@@ -402,11 +424,17 @@ func c01Pairs(r *core.Run) {
 		}
 		var seq int64
 		var mu sync.Mutex
-		bound := -1 // thorough: every schedule
+		bound, maxExec := 5, 5000 // thorough: every schedule with at most five preemptions, capped per scenario
 		if quick(r) {
 			bound = 3 // quick: every schedule with at most three preemptions
 		}
-		n, complete := sched.ExploreBounded(16, 60000, bound, func(prefix []string) sched.Result {
+		if sc.bound != [2]int{} {
+			bound = sc.bound[1]
+			if quick(r) {
+				bound = sc.bound[0]
+			}
+		}
+		n, complete := sched.ExploreBounded(16, maxExec, bound, func(prefix []string) sched.Result {
 			mu.Lock()
 			seq++
 			id := seq
@@ -422,19 +450,27 @@ func c01Pairs(r *core.Run) {
 			return res
 		})
 		r.Count("schedules:"+tag, int64(n))
+		fmt.Fprintf(os.Stderr, "C01 %s: %d schedules (preemption bound %d, complete=%v)\n", tag, n, bound, complete)
 		if !complete {
 			allComplete = false
+			r.Count("enumerations_truncated_at_cap", 1)
 		}
 	}
-	r.Extra("pair_enumerations_exhaustive", allComplete && !quick(r))
-	if quick(r) {
-		r.Extra("schedule_bound", "all schedules with at most 3 preemptions (thorough tier: all schedules); scheduling points: before and after every DB/LN call")
-	}
+	r.Extra("pair_enumerations_complete_within_bound", allComplete)
+	r.Extra("schedule_bound", c01BoundText)
 	os.RemoveAll(t.dir)
 }
 
 // (c) triples — sampled schedules of swap || swap || melt
 func c01Triples(r *core.Run) {
+	const chunk = 1500
+	if r.Splits() {
+		core.Parallel(4, 2, func(c int) { r.RunPart(fmt.Sprintf("triples/c%d/", c), 30*time.Minute) })
+		return
+	}
+	if !r.Want("triples/c0/0") && !strings.HasPrefix(r.Only, "triples/") {
+		return
+	}
 	t, err := c01MakeTemplate(r, "triples")
 	if err != nil {
 		r.Violate("setup", "template: "+err.Error(), "triples", nil)
@@ -446,7 +482,7 @@ func c01Triples(r *core.Run) {
 	n := 6000
 	succ := lnmodel.PayPlan{Answer: lnmodel.ASucceeded}
 	core.Parallel(n, 16, func(i int) {
-		tag := fmt.Sprintf("triples/%d", i)
+		tag := fmt.Sprintf("triples/c%d/%d", i/chunk, i)
 		if !r.Want(tag) || r.Violations() >= 10 {
 			return
 		}
